@@ -113,3 +113,8 @@ Example ex_blocked :
   decide ex_table [[99; 111; 109]] false = RNotAuth /\
   decide [] [[99; 111; 109]] true = RNoRoute.
 Proof. vm_compute. repeat split. Qed.
+(* the side condition is needed: the same suffix under two actions -- the first listed wins *)
+Example ex_not_functional_order_matters :
+  decide [([[[97]]], Forge); ([[[97]]], Forward [0])] [[97]] true = RBlocked /\
+  decide [([[[97]]], Forward [0]); ([[[97]]], Forge)] [[97]] true = RForward 0.
+Proof. vm_compute. split; reflexivity. Qed.
